@@ -1,8 +1,8 @@
 /-
 `NewDateFromString` OF THE GO SOURCE IS THE MODEL'S `Date.parse` — from the regular expression in the source to the date.
 The translated function (Gen/GoCal.lean) takes `datePattern.FindStringSubmatch` as a parameter; its contract follows from
-the generic `SubmatchSpec` (GoSem/RxSpec.lean) instantiated with the pattern translated from the source
-(`Gen.rx_klog_datePattern`) via the kernel-checked equivalence with the expected pattern and `Regexes.date_marked` /
+the generic `SubmatchSpec` (GoSem/RxSpec.lean) for any pattern with the marked language of the expected date pattern (the source contains one:
+`date_pattern_in_source`) via `Regexes.date_marked` /
 `date_groups`.  After the match the Go code refuses mixed separators (`strings.Count(s, "-") == 1`), re-assembles the digits
 with dashes, parses them with `civil.ParseDate` (library semantics: KlogV/GoSem/Civil.lean) and checks the years 0–9999.
 Property theorems only (helper lemmas: KlogV/Lemmas/GoDateParse*.lean).
@@ -11,20 +11,22 @@ import KlogV.Lemmas.GoDateParse
 namespace KlogV.GoTie
 open KlogV.Go KlogV.Rx
 
-theorem datePattern_tied : equivCheck 2000 (mark Gen.rx_klog_datePattern) (mark Expect.date) = true := by decide +kernel
+theorem date_pattern_in_source :
+    ∃ g ∈ Gen.allRegexes, g.2.2.1 = (true, true) ∧ g.2.2.2 = [] ∧ SameMarked g.2.1 Expect.date :=
+  KlogV.Regexes.tie_sound Regexes.date
 
 /-- the contract of `datePattern.FindStringSubmatch`: on a string of the pattern's shape the string and the three digit groups -/
-theorem dateFind_of_spec (env : Env) (find : Str → List Str) (h : SubmatchSpec env Gen.rx_klog_datePattern 3 find) :
-    DateFind find :=
-  GoL.dateFind_of_spec env find h
+theorem dateFind_of_spec (env : Env) (re : Re) (hre : SameMarked re Expect.date) (find : Str → List Str)
+    (h : SubmatchSpec env re 3 find) : DateFind find :=
+  GoL.dateFind_of_spec env re hre find h
 
 theorem newDateFromString_eq (find : Str → List Str) (hf : DateFind find) (s : List Char) :
     (GoCal.NewDateFromString find s).res = (optRes (Date.parse s)).map Date.toGo :=
   GoL.newDateFromString_eq find hf s
 
-theorem newDateFromString_of_regexp (env : Env) (find : Str → List Str)
-    (h : SubmatchSpec env Gen.rx_klog_datePattern 3 find) (s : List Char) :
+theorem newDateFromString_of_regexp (env : Env) (re : Re) (hre : SameMarked re Expect.date) (find : Str → List Str)
+    (h : SubmatchSpec env re 3 find) (s : List Char) :
     (GoCal.NewDateFromString find s).res = (optRes (Date.parse s)).map Date.toGo :=
-  newDateFromString_eq find (dateFind_of_spec env find h) s
+  newDateFromString_eq find (dateFind_of_spec env re hre find h) s
 
 end KlogV.GoTie
